@@ -35,8 +35,26 @@ def trPc : Pc → Option (Id × Obj)
 
 /-- the object a thread is about to return -/
 def livePc : Pc → Option (Id × Obj)
-  | .relRel i o | .relSet i o | .finRel i o => some (i, o)
+  | .relRel i o | .relSet i o | .finRel i o | .crSelect i o => some (i, o)
   | _ => none
+
+/-- the row id a lock holder has probed and relies on being absent from `cache` -/
+def gid : Pc → Option Id
+  | .weakGet i | .weakDel i _ | .select i | .finRelNF i | .put i _ => some i
+  | _ => none
+
+/-- the thread is inside the copy loop of `expireAll` (relies on `len(cache)` staying put) -/
+def pcEAk : Pc → Bool
+  | .eaNext _ _ | .eaSetWeak _ _ _ _ | .eaSwap => true
+  | _ => false
+
+/-- what makes the lock-free steps of thread `t` harmless: its `cache[id] = obj` (of `created`) hits an id that
+    is in neither map, that no lock holder has just probed, while nobody iterates `cache`; its INSERT is of a new id -/
+def CrOK (s : State) (t : Tid) : Prop :=
+  (∀ i o, (s.th t).pc = .crSet i o →
+    aget s.strong i = none ∧ aget s.weak i = none ∧ (∀ o', s.transit ≠ some (i, o')) ∧
+    (∀ u, gid (s.th u).pc ≠ some i) ∧ (∀ u, pcEAk (s.th u).pc = false)) ∧
+  (∀ i, (s.th t).pc = .insert i → i ∉ s.db)
 
 /-- what the lock holder has learnt about the maps and still relies on -/
 def know (s : State) : Pc → Prop
@@ -151,16 +169,38 @@ theorem nocreate_step (s s' : State) (t : Tid) (h : NoCreate s) (hs : step s t =
   · rw [step_th_ne s s' t u hs hu]; exact h u
 
 /-! ### effects on the maps -/
-theorem nonholder_noeffect (s s' : State) (t : Tid) (hs : step s t = some s') (hh : holds (s.th t).pc = false)
-    (hc : pcCreate (s.th t).pc = false) :
-    s'.strong = s.strong ∧ s'.weak = s.weak ∧ s'.stale = s.stale ∧ s'.transit = s.transit := by
-  step_cases <;> simp only [hpc, holds, pcCreate] at hh hc <;> simp_all
+theorem nonholder_effect2 (s s' : State) (t : Tid) (hs : step s t = some s') (hh : holds (s.th t).pc = false) :
+    s'.weak = s.weak ∧ s'.stale = s.stale ∧ s'.transit = s.transit ∧
+    (s'.strong = s.strong ∨ ∃ i o, (s.th t).pc = .crSet i o ∧ s'.strong = aset s.strong i o) := by
+  step_cases <;> simp only [hpc, holds] at hh <;> simp_all <;> exact Or.inr ⟨_, _, ⟨rfl, rfl⟩, rfl⟩
+
+theorem crok_of_nocreate (s : State) (t : Tid) (hn : NoCreate s) : CrOK s t := by
+  have h := (hn t).1
+  constructor
+  · intro i o hp; rw [hp] at h; simp [pcCreate] at h
+  · intro i hp; rw [hp] at h; simp [pcCreate] at h
 
 theorem trPc_holds (pc : Pc) (x : Id × Obj) (h : trPc pc = some x) : holds pc = true := by
   cases pc <;> simp_all [trPc, holds]
 
-theorem livePc_holds (pc : Pc) (x : Id × Obj) (h : livePc pc = some x) : holds pc = true := by
-  cases pc <;> simp_all [livePc, holds]
+theorem livePc_entry (c : Bool) (op : Op) : livePc (entry c op) = none := by
+  cases op <;> cases c <;> rfl
+theorem livePc_finish (s : State) (t : Tid) (o : Out) : livePc ((finish s t o).th t).pc = none := by
+  unfold finish; split
+  · simp only [setTh_self]; rfl
+  · simp only [setTh_self]; exact livePc_entry _ _
+theorem livePc_releaseFinish (s : State) (t : Tid) (o : Out) : livePc ((releaseFinish s t o).th t).pc = none := by
+  unfold releaseFinish; split <;> exact livePc_finish _ _ _
+theorem livePc_afterCC (s : State) (t : Tid) (k : K) : livePc ((afterCC s t k).th t).pc = none := by
+  cases k <;> simp only [afterCC, goto_pc_self, livePc_finish] <;> rfl
+theorem livePc_afterCaches (s : State) (t : Tid) (k : K) : livePc ((afterCaches s t k).th t).pc = none := by
+  cases k <;> simp only [afterCaches, goto_pc_self] <;> rfl
+
+/-- a lock-free `cache[i] = o` of an id nobody has probed, outside any iteration, keeps what lock holders know -/
+theorem know_aset (s s' : State) (pc : Pc) (i : Id) (o : Obj) (e1 : s'.strong = aset s.strong i o)
+    (e2 : s'.weak = s.weak) (h0 : aget s.strong i = none) (hg : gid pc ≠ some i) (he : pcEAk pc = false)
+    (h : know s pc) : know s' pc := by
+  cases pc <;> simp_all [know, gid, pcEAk, aget_aset] <;> grind
 
 theorem know_nonholds (s : State) (pc : Pc) (h : holds pc = false) : know s pc := by
   cases pc <;> simp_all [know, holds]
@@ -176,11 +216,15 @@ theorem transit_none (s : State) (t : Tid) (ha : AInv s) (hb : BInv s) (hl : s.l
     have := (ha.holder t').1 (trPc_holds _ _ ht')
     simp_all
 
-theorem reach_step (s s' : State) (t : Tid) (ha : AInv s) (hb : BInv s) (hn : NoCreate s)
+theorem reach_step (s s' : State) (t : Tid) (ha : AInv s) (hb : BInv s) (hn : CrOK s t)
     (hs : step s t = some s') (i : Id) (o : Obj) (hr : Reach s i o) : Reach s' i o := by
   cases hh : holds (s.th t).pc
-  · obtain ⟨e1, e2, e3, e4⟩ := nonholder_noeffect s s' t hs hh (hn t).1
-    unfold Reach at *; rw [e1, e2, e3, e4]; exact hr
+  · obtain ⟨e2, e3, e4, e1⟩ := nonholder_effect2 s s' t hs hh
+    unfold Reach at *; rw [e2, e3, e4]
+    rcases e1 with e1 | ⟨i', o', hp, e1⟩ <;> rw [e1]
+    · exact hr
+    · have := (hn.1 i' o' hp).1
+      grind [aget_aset]
   · have hl := (ha.holder t).1 hh
     have hk := hb.know t
     have htn := transit_none s t ha hb hl
@@ -217,8 +261,8 @@ theorem afterCC_outs_self (s : State) (t : Tid) (k : K) :
 theorem outs_effect (s s' : State) (t : Tid) (hs : step s t = some s') (i : Id) (o : Obj)
     (h : Out.obj i o ∈ (s'.th t).outs) :
     Out.obj i o ∈ (s.th t).outs ∨ ((s.th t).pc = .probe i ∧ aget s.strong i = some o) ∨
-      livePc (s.th t).pc = some (i, o) ∨ pcCreate (s.th t).pc = true := by
-  step_cases <;> simp only [hpc, livePc, pcCreate] <;>
+      livePc (s.th t).pc = some (i, o) := by
+  step_cases <;> simp only [hpc, livePc] <;>
     (try (rcases releaseFinish_outs_self _ t _ with e | e <;> rw [e] at h)) <;>
     (try (rcases afterCC_outs_self _ t _ with e | e <;> rw [e] at h)) <;>
     (try rw [finish_outs_self] at h) <;>
@@ -230,11 +274,16 @@ theorem know_cuStrongNext (s : State) (k : K) (l : List Id) : know s (cuStrongNe
   cases l <;> simp [cuStrongNext, know]
 
 /-! ### preservation of the Layer B clauses by the acting thread's step -/
-theorem binv_uniq (s s' : State) (t : Tid) (ha : AInv s) (hb : BInv s) (hn : NoCreate s)
+theorem binv_uniq (s s' : State) (t : Tid) (ha : AInv s) (hb : BInv s) (hn : CrOK s t)
     (hs : step s t = some s') : ∀ i o p, aget s'.strong i = some o → aget s'.weak i = some p → o = p := by
   cases hh : holds (s.th t).pc
-  · obtain ⟨e1, e2, _, _⟩ := nonholder_noeffect s s' t hs hh (hn t).1
-    rw [e1, e2]; exact hb.uniq
+  · obtain ⟨e2, _, _, e1⟩ := nonholder_effect2 s s' t hs hh
+    rw [e2]
+    rcases e1 with e1 | ⟨i', o', hp, e1⟩ <;> rw [e1]
+    · exact hb.uniq
+    · have := (hn.1 i' o' hp).2.1
+      have hu := hb.uniq
+      grind [aget_aset]
   · have hl := (ha.holder t).1 hh
     have hk := hb.know t
     have htn := transit_none s t ha hb hl
@@ -267,13 +316,11 @@ theorem trPc_cuStrongNext (k : K) (l : List Id) : trPc (cuStrongNext k l) = none
 
 theorem binv_live_self (s s' : State) (t : Tid) (hb : BInv s)
     (hs : step s t = some s') (i : Id) (o : Obj) (h : livePc (s'.th t).pc = some (i, o)) : Reach s' i o := by
-  have hh := livePc_holds _ _ h
   have hk := hb.know t
   unfold Reach
   step_cases <;>
-    simp only [finish_holds, releaseFinish_holds, afterCC_holds, afterCaches_holds, goto_pc_self,
-      Bool.false_eq_true] at hh <;>
-    simp only [goto_pc_self, livePc_cuWeakNext, livePc_cuStrongNext] at h <;>
+    simp only [goto_pc_self, livePc_cuWeakNext, livePc_cuStrongNext, livePc_finish, livePc_releaseFinish,
+      livePc_afterCC, livePc_afterCaches] at h <;>
     simp_all [livePc, aget_aset]
 
 theorem binv_tr2_self (s s' : State) (t : Tid)
@@ -292,16 +339,21 @@ theorem opt_none_or (m w : AMap) (hu : ∀ i o p, aget m i = some o → aget w i
   | none => exact Or.inl rfl
   | some p => rw [hu i o p h hw]; exact Or.inr rfl
 
-theorem binv_tr1 (s s' : State) (t : Tid) (ha : AInv s) (hb : BInv s) (hn : NoCreate s)
+theorem binv_tr1 (s s' : State) (t : Tid) (ha : AInv s) (hb : BInv s) (hn : CrOK s t)
     (hs : step s t = some s') (i : Id) (o : Obj) (htr : s'.transit = some (i, o)) :
     aget s'.strong i = none ∧ (aget s'.weak i = none ∨ aget s'.weak i = some o) ∧
       ∃ t', trPc (s'.th t').pc = some (i, o) := by
   cases hh : holds (s.th t).pc
-  · obtain ⟨e1, e2, _, e4⟩ := nonholder_noeffect s s' t hs hh (hn t).1
+  · obtain ⟨e2, _, e4, e1⟩ := nonholder_effect2 s s' t hs hh
     rw [e4] at htr
     obtain ⟨h1, h2, t', h3⟩ := hb.tr1 i o htr
-    rw [e1, e2]
-    refine ⟨h1, h2, t', ?_⟩
+    rw [e2]
+    have h1' : aget s'.strong i = none := by
+      rcases e1 with e1 | ⟨i', o', hp, e1⟩ <;> rw [e1]
+      · exact h1
+      · have := (hn.1 i' o' hp).2.2.1
+        grind [aget_aset]
+    refine ⟨h1', h2, t', ?_⟩
     have : t' ≠ t := by
       intro e; subst e
       have := trPc_holds _ _ h3
@@ -317,7 +369,7 @@ theorem binv_tr1 (s s' : State) (t : Tid) (ha : AInv s) (hb : BInv s) (hn : NoCr
       refine ⟨?_, ?_, t, ?_⟩ <;> simp [trPc, aget_adel] <;>
       first | grind | exact opt_none_or _ _ hu _ _ hk
 
-theorem binv_step (s s' : State) (t : Tid) (ha : AInv s) (hb : BInv s) (hn : NoCreate s)
+theorem binv_step (s s' : State) (t : Tid) (ha : AInv s) (hb : BInv s) (hn : CrOK s t)
     (hs : step s t = some s') : BInv s' := by
   have ht : ∀ u, holds (s.th u).pc = true → u ≠ t → holds (s.th t).pc = false := by
     intro u hu hne
@@ -329,7 +381,7 @@ theorem binv_step (s s' : State) (t : Tid) (ha : AInv s) (hb : BInv s) (hn : NoC
     by_cases hu : u = t
     · subst hu; exact binv_tr2_self s s' u hs i o h
     · rw [step_th_ne s s' t u hs hu] at h
-      obtain ⟨_, _, _, e4⟩ := nonholder_noeffect s s' t hs (ht u (trPc_holds _ _ h) hu) (hn t).1
+      obtain ⟨_, _, e4, _⟩ := nonholder_effect2 s s' t hs (ht u (trPc_holds _ _ h) hu)
       rw [e4]; exact hb.tr2 u i o h
   · intro u
     by_cases hu : u = t
@@ -337,8 +389,11 @@ theorem binv_step (s s' : State) (t : Tid) (ha : AInv s) (hb : BInv s) (hn : NoC
     · rw [step_th_ne s s' t u hs hu]
       cases hh : holds (s.th u).pc
       · exact know_nonholds _ _ hh
-      · obtain ⟨e1, e2, _, _⟩ := nonholder_noeffect s s' t hs (ht u hh hu) (hn t).1
-        exact know_congr s s' _ e1 e2 (hb.know u)
+      · obtain ⟨e2, _, _, e1⟩ := nonholder_effect2 s s' t hs (ht u hh hu)
+        rcases e1 with e1 | ⟨i', o', hp, e1⟩
+        · exact know_congr s s' _ e1 e2 (hb.know u)
+        · obtain ⟨h0, _, _, hg, he⟩ := hn.1 i' o' hp
+          exact know_aset s s' _ i' o' e1 e2 h0 (hg u) (he u) (hb.know u)
   · intro u i o h
     by_cases hu : u = t
     · subst hu; exact binv_live_self s s' u hb hs i o h
@@ -347,11 +402,10 @@ theorem binv_step (s s' : State) (t : Tid) (ha : AInv s) (hb : BInv s) (hn : NoC
   · intro u i o h
     by_cases hu : u = t
     · subst hu
-      rcases outs_effect s s' u hs i o h with h | ⟨hp, hg⟩ | h | h
+      rcases outs_effect s s' u hs i o h with h | ⟨hp, hg⟩ | h
       · exact reach_step s s' u ha hb hn hs i o (hb.outs u i o h)
       · exact reach_step s s' u ha hb hn hs i o (Or.inl hg)
       · exact reach_step s s' u ha hb hn hs i o (hb.live u i o h)
-      · have := (hn u).1; simp_all
     · rw [step_th_ne s s' t u hs hu] at h
       exact reach_step s s' t ha hb hn hs i o (hb.outs u i o h)
 
@@ -364,13 +418,14 @@ theorem inv_run (s : State) (sched : List Tid) (ha : AInv s) (hb : BInv s) (hn :
     unfold run
     split
     · rename_i s' hs
-      exact ih s' (ainv_step s s' t ha hs) (binv_step s s' t ha hb hn hs) (nocreate_step s s' t hn hs)
+      exact ih s' (ainv_step s s' t ha hs) (binv_step s s' t ha hb (crok_of_nocreate s t hn) hs)
+        (nocreate_step s s' t hn hs)
     · exact ih s ha hb hn
 
 theorem livePc_startTh (c : Bool) (p : List Op) : livePc (startTh c p).pc = none := by
-  cases h : livePc (startTh c p).pc with
-  | none => rfl
-  | some x => have := livePc_holds _ _ h; simp [holds_startTh] at this
+  cases p
+  · rfl
+  · simp only [startTh]; exact livePc_entry _ _
 
 theorem trPc_startTh (c : Bool) (p : List Op) : trPc (startTh c p).pc = none := by
   cases h : trPc (startTh c p).pc with
@@ -422,7 +477,7 @@ theorem pcErr_nonholds (pc : Pc) (h : holds pc = false) : pcErr pc = false := by
 theorem pcErr_cuWeakNext (k : K) (l : List Id) : pcErr (cuWeakNext k l) = false := by cases l <;> rfl
 theorem pcErr_cuStrongNext (k : K) (l : List Id) : pcErr (cuStrongNext k l) = false := by cases l <;> rfl
 
-theorem einv_step (s s' : State) (t : Tid) (ha : AInv s) (hb : BInv s) (hn : NoCreate s) (he : EInv s)
+theorem einv_step (s s' : State) (t : Tid) (ha : AInv s) (hb : BInv s) (hn : CrOK s t) (he : EInv s)
     (hs : step s t = some s') : EInv s' := by
   intro u
   by_cases hu : u = t
@@ -431,9 +486,9 @@ theorem einv_step (s s' : State) (t : Tid) (ha : AInv s) (hb : BInv s) (hn : NoC
     have hS := (ha.needS u).2
     have hW := ha.needW u
     have hk := hb.know u
-    have hc := (hn u).1
+    have hc := hn.2
     obtain ⟨he1, he2⟩ := he u
-    step_cases <;> simp only [hpc, holds, needS, needW, know, pcCreate, pcErr] at h1t hS hW hk hc he1 <;>
+    step_cases <;> simp only [hpc, holds, needS, needW, know, pcErr] at h1t hS hW hk hc he1 <;>
       (try simp only [true_iff, false_iff, Bool.false_eq_true] at h1t) <;>
       (try simp only [releaseFinish, h1t]) <;>
       simp only [goto_pc_self, goto_outs_self, finish_outs_self, afterCaches_outs_self,
@@ -459,8 +514,8 @@ theorem inv_run_e (s : State) (sched : List Tid) (ha : AInv s) (hb : BInv s) (hn
     unfold run
     split
     · rename_i s' hs
-      exact ih s' (ainv_step s s' t ha hs) (binv_step s s' t ha hb hn hs) (nocreate_step s s' t hn hs)
-        (einv_step s s' t ha hb hn he hs)
+      exact ih s' (ainv_step s s' t ha hs) (binv_step s s' t ha hb (crok_of_nocreate s t hn) hs)
+        (nocreate_step s s' t hn hs) (einv_step s s' t ha hb (crok_of_nocreate s t hn) he hs)
     · exact ih s ha hb hn he
 
 theorem reach_run (s : State) (sched : List Tid) (ha : AInv s) (hb : BInv s) (hn : NoCreate s)
@@ -471,8 +526,8 @@ theorem reach_run (s : State) (sched : List Tid) (ha : AInv s) (hb : BInv s) (hn
     unfold run
     split
     · rename_i s' hs
-      exact ih s' (ainv_step s s' t ha hs) (binv_step s s' t ha hb hn hs) (nocreate_step s s' t hn hs)
-        (reach_step s s' t ha hb hn hs i o hr)
+      exact ih s' (ainv_step s s' t ha hs) (binv_step s s' t ha hb (crok_of_nocreate s t hn) hs)
+        (nocreate_step s s' t hn hs) (reach_step s s' t ha hb (crok_of_nocreate s t hn) hs i o hr)
     · exact ih s ha hb hn hr
 
 end SqlObjVerif.Conc
